@@ -370,6 +370,27 @@ CLAIMED = {
             'SMT (z3 NRA) for the growth arithmetic; solver-enumerated '
             'configuration vectors with concrete rendered-truth oracles for '
             'the fit'),
+    'C03': ('3/C03',
+            'Metamorphic. Symbolic part: for positive symbolic images 2x3 '
+            '(thorough 3x3) embedded at every integer offset of a zero '
+            'canvas, detect_sources (labels, bbox, areas), find_peaks, '
+            'centroid_com, do_photometry, ApertureStats (sum, centroid, '
+            'bbox) and SourceCatalog (centroid, flux, max, bbox, extremum '
+            'indices) on the canvas are solver-equal to the shifted results '
+            'on the image; under transposition centroid_com, raw moments, '
+            'do_photometry with the transposed aperture and SourceCatalog '
+            'swap their x/y quantities. Concrete part (solver-enumerated '
+            'offsets and pads on an asymmetric scene incl. a source whose '
+            'quadratic fit fails): the three star finders, detect + '
+            'deblend, a 27-column SourceCatalog table incl. orientation -> '
+            '90deg - theta under transposition, aperture photometry / '
+            'statistics, radial profiles incl. data_profile, and model '
+            'rendering.',
+            'embedded images positive, canvas zero, threshold >= 0; only '
+            'sources whose footprint stays inside the original frame; '
+            'integer translations',
+            TECH + '; concrete metamorphic runs over solver-enumerated '
+            'offsets for convolution / watershed / fit based code'),
 }
 
 NOT_YET = {}
